@@ -35,3 +35,8 @@ impl PartialOrd for Position {
     #[verifier::external_body]
     fn partial_cmp(&self, other: &Position) -> (r: Option<Ordering>) { self.0.partial_cmp(&other.0) }
 }
+// TRUSTED std: core::cmp::{min, max} (documented: min returns the first argument when equal, max the second)
+pub assume_specification<T: Ord>[ core::cmp::min ](a: T, b: T) -> (r: T)
+    ensures T::obeys_cmp_spec() ==> r == (if b.cmp_spec(&a) == Ordering::Less { b } else { a });
+pub assume_specification<T: Ord>[ core::cmp::max ](a: T, b: T) -> (r: T)
+    ensures T::obeys_cmp_spec() ==> r == (if b.cmp_spec(&a) == Ordering::Less { a } else { b });
